@@ -343,8 +343,10 @@ def _display_type(x):
     """the heap shape a tuple display with typed symbolic leaves is re-encoded under (None: not such a display)"""
     from .values import VTuple
 
-    if isinstance(x, VTuple) and all(isinstance(i, SV) and i.ty is not None for i in x.items):
-        return TTuple(*[i.ty for i in x.items])
+    if isinstance(x, VTuple):
+        tys = [(i.ty if isinstance(i, SV) else _display_type(i)) for i in x.items]
+        if all(t is not None for t in tys):
+            return TTuple(*tys)
     return None
 
 
